@@ -16,7 +16,8 @@ from concurrent.futures import ThreadPoolExecutor
 from . import core
 from .core import clist, cbool
 
-IMPORTS = "Require Import Hdl21.Base.PyInt Hdl21.Model.C07PassMgr Hdl21.Corr.C03 Hdl21.Corr.C07."
+IMPORTS = ("Require Import Hdl21.Base.PyInt Hdl21.Model.C07PassMgr Hdl21.Model.C07FlatNames Hdl21.Corr.C03 Hdl21.Corr.C07.\n"
+           "From Coq Require Import String.\nOpen Scope string_scope.")
 CALLS = ("E", "E1", "P", "N")
 ADD_VARIANTS = 12      # harness/impl/c07.py:add_variant
 
@@ -206,16 +207,31 @@ def c_op(op):
     if k == "NP":
         return f"NewParent {c_nats(a[0])}"
     if k == "ADD":
-        return f"Add {a}"
+        return f"Add {a} 100"
     if k == "ADDX":
-        return f"Add {a[0]}"
+        return f"Add {a[0]} {a[1]}"
     raise ValueError(k)
+
+
+def c_strs(l):
+    return clist(l, core.cstr)
+
+
+def c_insts(l):
+    return clist(l, lambda i: f"({i[0]}, {c_strs(i[1])})")
+
+
+def c_cmod(pre):
+    """The module as the implementation showed it right before (with bundles) / right after its flattening body."""
+    bundles = clist(pre.get("bundles", []), lambda b: f"CB {core.cstr(b[0])} {cbool(b[1])} {c_strs(b[2])}")
+    return f"(CM {c_strs(pre['ns'])} {c_strs(pre['ports'])} {bundles} {c_insts(pre['insts'])} [])"
 
 
 def c_obs(rec, same, logged=True):
     acc = bool(rec.get("ok")) and rec.get("same", True)
     log = clist(rec.get("frames", []), lambda e: f"({e[0]},{e[1]},{cbool(e[2])})")
-    return f"IObs {cbool(acc)} {cbool(logged)} {log} {same}"
+    flat = clist(rec.get("flat", []), lambda f: f"({f[0]}, {c_cmod(f[2])})")
+    return f"IObs {cbool(acc)} {cbool(logged)} {log} {same} {flat}"
 
 
 def model_kids(spec):
@@ -243,18 +259,32 @@ def c_case(job, out, refs):
         same = 1 if rec.get("ok") and rec["hash"] == refs.get(d, "P1", m) else 0
         steps.append(f"({c_op(['P1', m])}, {c_obs(rec, same, job['log'])})")
     kl = clist([c_nats(model_kids(x)) for x in job["design"]])
-    return f"({kl}, {clist(steps)})%nat"
+    pre = {}
+    for rec in out["calls"] + out["final"]:
+        for m, before, _after in rec.get("flat", []):
+            pre.setdefault(m, before)
+    inits = clist([c_cmod(pre[m]) if m in pre else "cm_empty" for m in range(len(d))])
+    return f"({kl}, {inits}, {clist(steps)})%nat"
 
 
 # ------------------------------------------------------------------------------------------ evaluation and reporting
+TIMES = {}
+
+
 def evaluate(tag, jobs, refs, mode, chunk=150):
+    import time
+    t0 = time.time()
     refs.need(jobs)
+    t1 = time.time()
     outs = run_jobs(jobs, mode)
+    t2 = time.time()
     crashed = [i for i, o in enumerate(outs) if "crash" in o]
     if crashed:
         raise RuntimeError(f"history process crashed: {outs[crashed[0]]} on {json.dumps(jobs[crashed[0]])}")
     cases = [c_case(j, o, refs) for j, o in zip(jobs, outs)]
+    chunk = max(12, min(chunk, -(-len(cases) // core.NPROC)))       # spread the cases over the cores
     bad = core.coq_eval_cases("C07", tag, IMPORTS, "c07case", cases, "run_cases chk_c07", chunk=chunk)
+    TIMES[tag] = dict(references_s=round(t1 - t0, 1), histories_s=round(t2 - t1, 1), coq_s=round(time.time() - t2, 1))
     return outs, {i: (r % 10, r // 10 - 1) for i, r in bad}
 
 
@@ -606,6 +636,7 @@ def run(run, tier, seed, replay=None):
                 hits[t] = hits.get(t, 0) + 1
                 cover[t] += 1
         run.coverage["streams"][stream]["strengthening_targets_met"] = hits
+        run.coverage["streams"][stream]["wall"] = TIMES.get(stream.replace("-", "_"))
         report(run, stream, jobs, outs, res, refs, mode)
         total += len(jobs)
         return outs, res
